@@ -52,10 +52,18 @@ C14_ManifestListsSchedule(sch, events) ==
         /\ \A i \in 1..Len(events) :
               events[i].id = i - 1 /\ events[i].ptime = EvTime(sch, i - 1) /\ events[i].duration = sch.duration
 
-\* SCTE-35 payload of event k (small schedules: every value below 2^31)
+\* floor(x * m / d) without forming x * m (TLC integers are 32 bit): reduce m/d, split x by the reduced divisor
+RECURSIVE Gcd(_, _)
+Gcd(a, b) == IF b = 0 THEN a ELSE Gcd(b, a % b)
+MulDiv(x, m, d) ==
+    LET g == Gcd(m, d)
+        a == m \div g
+        b == d \div g
+    IN  (x \div b) * a + ((x % b) * a) \div b
+\* SCTE-35 payload of event k (schedules whose 90 kHz values stay below 2^31)
 C14_Scte35Decodes(sch, k, bytes) ==
     /\ WellFormedSpliceInsert(bytes)
     /\ EventId(bytes) = [mid |-> k \div 65536, lo |-> k % 65536]
-    /\ Pts(bytes) = Limbs33((EvTime(sch, k) * 90000) \div sch.ts)
-    /\ BreakDuration(bytes) = Limbs33((sch.duration * 90000) \div sch.ts)
+    /\ Pts(bytes) = Limbs33(MulDiv(EvTime(sch, k), 90000, sch.ts))
+    /\ BreakDuration(bytes) = Limbs33(MulDiv(sch.duration, 90000, sch.ts))
 =============================================================================
